@@ -4,7 +4,10 @@ import (
 	"fmt"
 	"go/ast"
 	"go/token"
+	"go/types"
 	"strings"
+
+	"golang.org/x/tools/go/ssa"
 )
 
 // Clauses that came out of the third hunting round (C03, C05, C18, C20).
@@ -47,6 +50,16 @@ func init() {
 				}
 			}
 			r.check(clearAt.IsValid() && switchAt.IsValid() && clearAt < switchAt, "the sensitive mark is cleared before every field", p.pos(fd.Pos()), "hf.sensible = false in front of the representation switch (after the loop label)", "the field decoder no longer clears the sensitive mark before it decodes a field: every field after a never-indexed one in the same block is reported sensitive, and the next indexed one carries the mark into the dynamic table")
+			// the exported one-field decoder has no way to know where a block starts
+			if nx := p.decl("(*HPACK).Next"); nx != nil {
+				r.fn("(*HPACK).Next")
+				res := singleReturn(nx)
+				positional := true
+				if c, ok := res.(*ast.CallExpr); ok && p.calleeOf(c) == "(*HPACK).nextField" && len(c.Args) == 4 && p.text(c.Args[1]) == "true" {
+					positional = false
+				}
+				r.check(positional, "(*HPACK).Next tells the decoder where in the block it is", p.pos(nx.Pos()), "block position passed on", "HPACK.Next always decodes as if at the start of a block: a dynamic table size update after a field, which RFC 7541 s4.2 makes a decoding error, is accepted and applied by users of the exported decoder (the library's own connections use the positional decoder)")
+			}
 			r.check(sets == 1 && setCase == "c&noIndexByte==16", "only the never-indexed representation sets it", p.pos(fd.Pos()), "hf.sensible = true under case c&noIndexByte == 16 only", fmt.Sprintf("the sensitive mark is set %d times (under %q): it belongs to the never-indexed literal (0001xxxx) alone", sets, setCase))
 		},
 	})
@@ -533,6 +546,82 @@ func init() {
 					return true
 				})
 				r.check(okH, "a handler that finds the loop gone closes its response's body", p.pos(fd.Pos()), "case <-sc.handlerStop: ctx.Response.CloseBodyStream()", "a handler that finishes after the stream loop has gone drops its response with the body stream still open")
+			}
+		},
+	})
+}
+
+func init() {
+	register(&Rule{
+		Name: "loops-run-no-application-code", Props: []string{"C14", "C12", "C19"}, Engine: "CALLGRAPH", Floor: 2,
+		Doc: "the goroutine that returns flow-control credit and serves every stream of a connection (the server's stream loop, the client's write loop) does not call into code the application supplied and that may block for as long as it likes: a Read on a streamed body's reader made from one of those loops stalls every other stream of the connection, and on the client it is made on the caller's reader while no lock ties it to the request",
+		Run: func(p *Prog, r *Out) {
+			n := 0
+			for _, f := range p.allFuncs() {
+				if f.Pkg != p.SPkg || f.Blocks == nil {
+					continue
+				}
+				for _, b := range f.Blocks {
+					for _, in := range b.Instrs {
+						c, ok := in.(*ssa.Call)
+						if !ok || !c.Common().IsInvoke() || c.Common().Method.Name() != "Read" {
+							continue
+						}
+						if types.TypeString(c.Common().Value.Type(), nil) != "io.Reader" {
+							continue
+						}
+						fn := p.fname(f)
+						r.fn(fn)
+						roots := p.own().rootsAt(p, in)
+						var loops []string
+						for x := range roots {
+							if strings.Contains(x, "Serve$3") || strings.Contains(x, "writeLoop") || strings.Contains(x, "readLoop") {
+								loops = append(loops, x)
+							}
+						}
+						sortStrings(loops)
+						n++
+						r.check(len(loops) == 0, fn+" calls the application's Read off the connection's loops", p.ipos(in), "not reached from a loop goroutine",
+							fmt.Sprintf("%s calls Read on a body stream supplied by the application, and is reached from %v: while that Read blocks (a stream writer that has nothing to write yet, a slow pipe) the loop sends no WINDOW_UPDATE, no response and no request on any other stream of the connection", fn, loops))
+					}
+				}
+			}
+			if n == 0 {
+				r.bad("body stream reads", "?", "no Read on an io.Reader found in the package: the rule has lost its anchors")
+			}
+		},
+	})
+	register(&Rule{
+		Name: "slot-released-with-the-reset", Props: []string{"C18"}, Engine: "AST", Floor: 2,
+		Doc: "the client counts a stream it resets as closed only once the RST_STREAM is on the wire: until then the server still counts it against SETTINGS_MAX_CONCURRENT_STREAMS, and a new stream opened in between exceeds the limit",
+		Run: func(p *Prog, r *Out) {
+			for _, fn := range []string{"(*Conn).cancel", "(*Conn).finish"} {
+				fd := p.decl(fn)
+				if fd == nil {
+					r.undecided(fn, "?", "no longer resolves")
+					continue
+				}
+				r.fn(fn)
+				decAt, rstAt := token.NoPos, token.NoPos
+				ast.Inspect(fd.Body, func(n ast.Node) bool {
+					c, ok := n.(*ast.CallExpr)
+					if !ok {
+						return true
+					}
+					if p.calleeOf(c) == "atomic.AddInt32" && squash(p.text(c.Args[0])) == "&c.openStreams" {
+						decAt = c.Pos()
+					}
+					if p.calleeOf(c) == "(*Conn).cancelStream" {
+						rstAt = c.Pos()
+					}
+					return true
+				})
+				if !rstAt.IsValid() {
+					r.ok(fn+" releases the slot no earlier than its RST_STREAM is written", p.pos(fd.Pos()), "sends no RST_STREAM")
+					continue
+				}
+				r.check(!decAt.IsValid(), fn+" releases the slot no earlier than its RST_STREAM is written", p.pos(fd.Pos()), "the slot is released by the write loop when the reset goes out",
+					fn+" decrements openStreams and then queues the RST_STREAM: the write loop picks between the queue of outgoing frames and the queue of new requests at random, so HEADERS for a new stream can reach the server while it still counts the reset one")
 			}
 		},
 	})
